@@ -92,6 +92,9 @@ func (w *WebsocketConnection) writeShipPump() {
 	ticker := time.NewTicker(pingPeriod)
 	defer func() {
 		ticker.Stop()
+		// a writer must not be in between its closed check and its send while the channel gets closed
+		w.muxShipWrite.Lock()
+		defer w.muxShipWrite.Unlock()
 		close(w.shipWriteChannel)
 	}()
 
@@ -261,7 +264,12 @@ func (w *WebsocketConnection) WriteMessageToWebsocketConnection(message []byte) 
 		return errors.New(connIsClosedError)
 	}
 
-	w.shipWriteChannel <- message
+	// do not wait for a full queue forever if the connection gets closed in the meantime
+	select {
+	case <-w.closeChannel:
+		return errors.New(connIsClosedError)
+	case w.shipWriteChannel <- message:
+	}
 	return nil
 }
 
